@@ -81,8 +81,8 @@ FINDING = {
   'non-identifier-params': 'illegal-module-name',
   'object-repr-param': 'param-repr-address',
   # both: the component table of translate_component is keyed by the unique name, not by the name the module is emitted under
+  # regression streams (repaired): the first must be refused, the second must translate
   'explicit-name-different-parameters': 'explicit-module-name-table-key',
-  'explicit-name-one-of-two-equal-instances': 'explicit-module-name-table-key',
 }
 
 # ----------------------------------------------------------------------------- protocol helpers
@@ -409,13 +409,6 @@ def check_design(ck, d, texts_by_run):
     ck.model_reqs.append((lambda h, tab=tab: leanio.line('names', 'wf', [S(x) for x in tab['typedefs']],
                             [[S(m['name']), [S(x) for x in m['ids']], [[S(a), S(b)] for a, b in m['insts']]] for m in tab['modules']]),
                           ('wf', case, wf_bad)))
-    if not d.get('model', True):
-      # the text contains foreign Verilog (a placeholder's pickled source): determinism and the table oracle only
-      ck.count({'design': str(d['uid']), 'src': hashlib.sha256(d['source'].encode()).hexdigest()[:16], 'backend': backend},
-               nontrivial=len(tab['modules']) >= 3)
-      ck.hist('alias-outcome', f'{stream or d["kind"]}:{"table-bad" if wf_bad else "clean"}')
-      for f in d['features']: ck.hist('feature', f)
-      continue
     # ---- the instance tree, as the model sees it
     tr, bodies = instance_bodies(top, P)
     comps = all_components(top)
@@ -423,6 +416,11 @@ def check_design(ck, d, texts_by_run):
     # the name a component is EMITTED under: its explicit_module_name (read from the instance's metadata), else its unique name
     EK = c13_worker.backend_pass('sv').explicit_module_name
     ename = {m: ((m.get_metadata(EK) if m.has_metadata(EK) else '') or real_name[m]) for m in comps}
+    # a placeholder that is not the top is emitted (and instantiated) under the wrapper name VerilogPlaceholderPass chose
+    from pymtl3.passes.backends.verilog import VerilogPlaceholder, VerilogPlaceholderPass
+    for m in comps:
+      if isinstance(m, VerilogPlaceholder) and m is not top and m.has_metadata(VerilogPlaceholderPass.placeholder_config):
+        ename[m] = m.get_metadata(VerilogPlaceholderPass.placeholder_config).pickled_top_module
     body_id, stand_id = {}, {}
     def bid(table, text_):
       return table.setdefault(text_, len(table))
@@ -461,7 +459,7 @@ def check_design(ck, d, texts_by_run):
     comp_order = list(tr.hierarchy.components.keys())
     winners = [body_id.get(tr.hierarchy.components[n], -1) for n in comp_order]
     text_order = [m['name'] for m in tab['modules']]
-    walk = d.get('walk', True)        # False: modules are emitted under explicit names, the table model is keyed by unique names
+    walk = d.get('walk', True) and d.get('model', True)        # model False: the text contains foreign Verilog (a placeholder); False: modules are emitted under explicit names, the table model is keyed by unique names
     if walk:
       ck.model_reqs.append((lambda h, t=tree(top, ids_body): leanio.line('names', 'walk', t),
                             ('walk-body', case, comp_order, winners, text_order)))
